@@ -367,12 +367,17 @@ impl Value {
         }
         // Handle cases like
         // 1,000,000
-        match Value::from_string(
-            s.as_ref()
-                .chars()
-                .filter(|c| c.is_numeric() || c == &'.')
-                .collect::<String>(),
-        ) {
+        let negative = s.as_ref().trim_start().starts_with('-');
+        let digits = s
+            .as_ref()
+            .chars()
+            .filter(|c| c.is_numeric() || c == &'.')
+            .collect::<String>();
+        match Value::from_string(if negative {
+            format!("-{}", digits)
+        } else {
+            digits
+        }) {
             Value::Float(f) => Ok(f.0),
             Value::Int(i) => Ok(i as f64),
             _other => {
